@@ -161,7 +161,7 @@ Proof.
   apply to_items_comments in Et. simpl in Et.
   assert (Hgoal : comments (of_items out tr) ++ rest = map (restyle c) (comments ts)).
   { rewrite comments_of_items, <- app_assoc, Hsp, app_assoc, Er, <- map_app, Et. reflexivity. }
-  destruct (split_groups 0 None out) as [gs0 cur]. destruct cur; [exact Hgoal|].
+  destruct (chunks 0 [] out) as [gs0 rest0]. destruct rest0; [|exact Hgoal].
   rewrite Hs. exact Hgoal.
 Qed.
 
